@@ -123,21 +123,43 @@ def run_tool(case, data, a, b, fa, fb):
 def original(case):
     from cardutil import mciipm
     if case['kind'] == 'ipm':
-        # the input file comes from elsewhere: it is laid out by the independent reference encoder, not by the library
-        # under test (whose own writer, if it went wrong, would hand the tools an input that is already damaged)
+        # the input file is what the library's writer produces, PROVIDED that is the layout the independent reference
+        # encoder gives (up to the optional trailing all-fill block); if the library's own writer has gone wrong it would
+        # hand the tools an input that is already damaged, so the reference layout is used instead (`by` = 'ref': the
+        # byte-for-byte clause, which speaks of files written by the library, is then taken up to trailing fill)
+        ref = None
         try:
             pk = iu.packaged()
             data = vbs_ref([iu.ref_wire(iu.dict_of_text(t), pk, case['a'], False) for t in case['msgs']])
-            return block_ref(data) if case['fa'] else data
+            ref = block_ref(data) if case['fa'] else data
         except Exception:
             pass
+        try:
+            f = io.BytesIO()
+            with mciipm.IpmWriter(f, encoding=case['a'], blocked=case['fa']) as w:
+                for t in case['msgs']:
+                    w.write(iu.dict_of_text(t))
+            lib = f.getvalue()
+        except Exception:
+            lib = None
+        if ref is not None and (lib is None or (strip_fill(lib) != strip_fill(ref) if case['fa'] else lib != ref)):
+            case['_by'] = 'ref'
+            return ref
         f = io.BytesIO()
         with mciipm.IpmWriter(f, encoding=case['a'], blocked=case['fa']) as w:
             for t in case['msgs']:
                 w.write(iu.dict_of_text(t))
         return f.getvalue()
     data = vbs_ref([bytes.fromhex(r) for r in case['recs']])
-    return block_ref(data) if case['fa'] else data
+    ref = block_ref(data) if case['fa'] else data
+    try:
+        lib = mciipm.vbs_list_to_bytes([bytes.fromhex(r) for r in case['recs']], blocked=case['fa'])
+    except Exception:
+        lib = None
+    if lib is None or (strip_fill(lib) != strip_fill(ref) if case['fa'] else lib != ref):
+        case['_by'] = 'ref'
+        return ref
+    return lib
 
 
 def decoded(data, codec, blocked, kind):
@@ -149,7 +171,7 @@ def decoded(data, codec, blocked, kind):
 
 def impl(case):
     orig = original(case)
-    res = {'orig': orig.hex()}
+    res = {'orig': orig.hex(), 'by': case.pop('_by', 'lib')}
     fwd = outcome(lambda: run_tool(case, orig, case['a'], case['b'], case['fa'], case['fb']), hb)
     res['fwd'] = fwd
     if fwd.startswith('OK '):
@@ -184,7 +206,11 @@ def judge(case, io_, mo):
     want_n = len(case['msgs'] if case['kind'] == 'ipm' else case['recs'])
     if io_.get('nrec') != 'OK %d' % want_n:
         ps.append({'kind': 'oracle', 'sig': 'record-count-' + tool, 'msg': '%s records after conversion, %d before' % (io_.get('nrec'), want_n)})
-    if io_.get('back') != 'OK ' + (io_['orig'] or '-'):
+    back_same = io_.get('back') == 'OK ' + (io_['orig'] or '-')
+    if not back_same and io_.get('by') == 'ref' and case['fa'] and str(io_.get('back', '')).startswith('OK '):
+        bk = io_['back'][3:]
+        back_same = strip_fill(bytes.fromhex(bk) if bk != '-' else b'') == strip_fill(bytes.fromhex(io_['orig']))
+    if not back_same:
         ps.append({'kind': 'oracle', 'sig': 'not-reversible-' + tool, 'msg': 'converting back does not reproduce the original file byte for byte'})
     if mo is not None and not ps and not mo[0].startswith('UNMODELLED'):
         f = bytes.fromhex(io_['fwd'][3:]) if io_['fwd'][3:] != '-' else b''
